@@ -7,6 +7,31 @@ ALL = [f"C{i:02d}" for i in range(1, 28)]
 
 # id -> (category, technique, level text, level note, design ref)
 CHECKS = {
+    "C01": ("exploration",
+            "bounded-exhaustive program-space enumeration (all queries within k deviations of the skeletons x curated datasets x argument domains), each executed on the real engine and compared with an independent reference evaluator",
+            "Every query reachable from 5 skeletons by <= 2 (quick) / <= 3 (thorough) deviations from the menu of DESIGN.md 3.3 that the real frontend accepts is executed over 10 curated graphs and every argument map of the per-variable domains; the engine's row multiset must equal the reference evaluator's (Appendix A), and every edge-parameter map the adapter receives must be explicit / declared default / null. Exhaustive within the deviation bound; if the wall-clock cap cuts the last layer the evidence says so.",
+            "Trusted: the reference evaluator (600 lines, DESIGN.md Appendix A/B), the generic graph adapter, datasets of <= 7 vertices. Larger queries / datasets are outside the bound.",
+            "DESIGN.md §4 C01"),
+    "C02": ("model_checking",
+            "stateless environment-choice exploration: every pre-fetch schedule with <= d deviations of an order-preserving batching wrapper, each schedule executed on the real engine and compared with the default schedule",
+            "For ~230 programs (12 hand-written to reach every resolver-call site of execution.rs + one representative per feature signature of the enumerated query space) all read-ahead schedules with <= 2 (quick) / <= 3 (thorough) deviations from 'no read-ahead' are executed; the row sequence must equal the default schedule's and no schedule may panic. Replay-prefix divergence and replay non-determinism are machinery errors.",
+            "Read-ahead amounts {0,1,2,all}; FIFO wrapper; programs above 90 choice points stay at d=2 in the thorough tier (listed in evidence).",
+            "DESIGN.md §4 C02"),
+    "C06": ("model_checking",
+            "explicit-state search over candidate values: BFS closure from ~1300 seed states, every transition calls the real intersect / exclude_single_value / normalize and is compared with a reference denotation (bitmask over a probe universe)",
+            "All seed candidates (Impossible, All, Single, Multiple up to 3 values in both orders, every Range over the bound alphabet with every bound kind and null inclusion) for an integer sort (signed/unsigned boundaries) and a string sort; every ordered pair is intersected, every value excluded, every state normalised; the state space is closed under these operations (no new states appear), so the search is a fixpoint.",
+            "Probe-universe argument (one probe per cell of the partition induced by the bound alphabet); integer and string sorts explored separately.",
+            "DESIGN.md §4 C06"),
+    "C07": ("exploration",
+            "exhaustive enumeration of (operator, left, right) over a boundary alphabet at two layers: the operator functions (guarded hook) and the same pairs end-to-end through compiled queries with variable and tag operands; oracle = documented definitions in i128",
+            "Every operand pair a type-checked query can produce from the alphabet (null, Int64/Uint64 boundaries, floats incl. -0.0, strings, booleans, lists up to length 2 with null and mixed-sign elements) for all 20 operators, at the function layer and through 144 compiled queries; results must equal the reference definitions; panics are violations.",
+            "Ordering of lists containing null elements is undefined by the documentation and skipped; regex semantics reuse the regex crate.",
+            "DESIGN.md §4 C07"),
+    "C17": ("exploration",
+            "exhaustive enumeration of all pairs/triples of a 90-type family and all (type, value) pairs against reference subtype / meet / typing relations",
+            "All pairs and triples over 3 base names x list depth <= 3 x every nullability mask: intersect is commutative, idempotent, associative, the greatest common subtype, None iff shapes differ; subtype is a partial order; equal_ignoring_nullability is an equivalence; is_valid_value agrees with an independent typing relation and is monotone along subtyping.",
+            "List depth <= 3 stands for deeper lists (operations recurse uniformly).",
+            "DESIGN.md §4 C17"),
     "C08": ("exploration",
             "exhaustive enumeration of all value pairs and triples over a boundary alphabet, against reference equality/order (i128)",
             "Every ordered pair and triple of a 44-value (quick) / larger (thorough) alphabet is compared with the real PartialEq/PartialOrd impls; equivalence, total-order and numeric-integer laws are checked on each. Exhaustive over the alphabet, which has one representative per class the comparison code distinguishes (sign, i64/u64 range overlap, kinds, nesting).",
